@@ -4,6 +4,7 @@ import (
 	"bytes"
 	"encoding/hex"
 	"strconv"
+	"strings"
 )
 
 // Hand-written cases that run before the random ones: the witnesses of the
@@ -103,6 +104,32 @@ func Corpus11() []*GCase {
 			res = append(res, finish(&GCase{Kind: "corpus-int-word-boundary", Decl: d, Blocks: []Block{fixedBlock(1, fixedTx(0, []Log{l}, nil))}}))
 		}
 	}
+	{ // abi_idx is the ELEMENT index, also when a filter rejects earlier elements of the same log
+		mk := func(name, ty string, f Flt, agg string, elems ...Val) *GCase {
+			d := Decl{Name: name, Event: "Batch", Agg: agg, Inputs: []Input{{Name: "id", Indexed: true, Type: "uint64", Column: "id"},
+				{Name: "amounts", Type: ty, Column: "amount", Flt: f}},
+				Block: []BD{{Name: "abi_idx", Column: "abi_idx"}, {Name: "log_idx", Column: "log_idx"}}}
+			sh := d.SigHash()
+			rev := make([]Val, len(elems))
+			for i := range elems {
+				rev[len(elems)-1-i] = elems[i]
+			}
+			logs := []Log{BuildLog(d, sh, []Val{uintVal("1"), {IsArr: true, Elems: elems}}, rep(0xaa, 20), 0),
+				BuildLog(d, sh, []Val{uintVal("2"), {IsArr: true, Elems: rev}}, rep(0xaa, 20), 1)}
+			return finish(&GCase{Kind: "corpus-abi-idx-filtered", Decl: d, Blocks: []Block{fixedBlock(1, fixedTx(0, logs, nil))}})
+		}
+		u := uintVal
+		gt0 := Flt{Op: "gt", Args: []string{"0"}}
+		res = append(res, mk("ai_mid", "uint256[]", gt0, "", u("5"), u("0"), u("7")))
+		res = append(res, mk("ai_first", "uint256[]", gt0, "and", u("0"), u("5"), u("7")))
+		res = append(res, mk("ai_alt", "uint256[]", gt0, "or", u("0"), u("5"), u("0"), u("7"), u("0"), u("9")))
+		res = append(res, mk("ai_lastonly", "uint256[]", gt0, "", u("0"), u("0"), u("0"), u("9")))
+		res = append(res, mk("ai_eq", "uint64[4]", Flt{Op: "eq", Args: []string{"7"}}, "", u("1"), u("7"), u("2"), u("7")))
+		res = append(res, mk("ai_ne", "uint8[]", Flt{Op: "ne", Args: []string{"7"}}, "", u("7"), u("1"), u("7"), u("2")))
+		res = append(res, mk("ai_str", "string[]", Flt{Op: "contains", Args: []string{"yes"}}, "", Val{Str: "no"}, Val{Str: "yes"}, Val{Str: "no"}, Val{Str: "yes"}))
+		res = append(res, mk("ai_addr", "address[]", Flt{Op: "!contains", Args: []string{"0x" + strings.Repeat("bb", 20)}}, "",
+			Val{Bytes: rep(0xbb, 20)}, Val{Bytes: rep(0xaa, 20)}, Val{Bytes: rep(0xbb, 20)}, Val{Bytes: rep(0xcc, 20)}))
+	}
 	return res
 }
 
@@ -185,6 +212,47 @@ func Corpus12() []*GCase {
 		c.Decl.TableCols = append(c.Decl.TableCols, "log_addr_ref")
 		c.DB = []RefTable{{Table: "ref_t", Column: "c", Vals: [][]byte{B}}}
 		res = append(res, c)
+	}
+	// byte-string arguments that begin with zero bytes (the zero address, leading-zero
+	// addresses, a bytes32 topic with leading zeros), in several spellings
+	{
+		Z := make([]byte, 20)
+		Z1 := append([]byte{0}, rep(0xd1, 19)...)
+		Z19 := append(make([]byte, 19), 0xd7)
+		E1 := append([]byte{0xee}, rep(0xd1, 19)...) // embeds Z1's remainder
+		lz := func(name, op, agg string, arg string, topicArg string) *GCase {
+			d := Decl{Name: name, Event: "Z", Agg: agg, Inputs: []Input{
+				{Name: "h", Indexed: true, Type: "bytes32", Column: "h"}, {Name: "w", Type: "address", Column: "w", Flt: Flt{Op: op, Args: []string{arg}}}},
+				Block: []BD{{Name: "log_addr", Column: "log_addr"}, {Name: "log_idx", Column: "log_idx"}}}
+			if topicArg != "" {
+				d.Inputs[0].Flt = Flt{Op: op, Args: []string{topicArg}}
+			}
+			sh := d.SigHash()
+			H0 := append(make([]byte, 2), rep(0x77, 30)...)
+			H1 := append([]byte{0x12, 0x34}, rep(0x77, 30)...)
+			var logs []Log
+			for i, w := range [][]byte{Z, Z1, Z19, E1, rep(0xaa, 20)} {
+				h := H0
+				if i%2 == 1 {
+					h = H1
+				}
+				logs = append(logs, BuildLog(d, sh, []Val{{Bytes: h}, {Bytes: w}}, w, uint64(i)))
+			}
+			return finish(&GCase{Kind: "corpus-leading-zero-arg", Decl: d, Blocks: []Block{fixedBlock(1, fixedTx(0, logs, nil))}})
+		}
+		for _, op := range []string{"eq", "ne", "contains", "!contains"} {
+			res = append(res, lz("z_all_"+op, op, "", hx(Z), ""))
+			res = append(res, lz("z_1_"+op, op, "", "0X"+strings.ToUpper(hex.EncodeToString(Z1)), ""))
+			res = append(res, lz("z_19_"+op, op, "and", "0x"+hex.EncodeToString(Z19)[1:], "0x"+strings.Repeat("00", 2)+strings.Repeat("77", 30)))
+			res = append(res, lz("z_noprefix_"+op, op, "or", hex.EncodeToString(Z1), ""))
+		}
+		{ // log_addr eq <zero address> as the only filter: the address is pushed down
+			c := lz("z_push", "eq", "", hx(Z), "")
+			c.Decl.Inputs[1].Flt = Flt{}
+			c.Decl.Block[0].Flt = Flt{Op: "eq", Args: []string{hx(Z), hx(Z1)}}
+			c.Path = "pushdown"
+			res = append(res, c)
+		}
 	}
 	// several rows per log with alternating verdicts: the accumulator starts afresh for every row
 	batch := func(name, ty, agg string, f Flt, g Flt, elems ...Val) *GCase {
